@@ -75,7 +75,7 @@ theorem one_mock_per_interface (f : FileIn) : (fileData f).2.map (·.name) = f.i
   unfold fileData
   have := foldl_append_map (σ := Registry) (fun r i => ifaceData r i) (fun (o : IfaceOut) => o.name) (fun (i : IfaceIn) => i.name)
     (by intro s a; simp [ifaceData]) f.ifaces
-    ({ dstPkgPath := f.dstPkgPath, inPackage := f.inPackage, imports := [] } : Registry) []
+    ({ dstPkgPath := f.dstPkgPath, inPackage := f.inPackage, imports := [], dstPkgName := f.pkgName } : Registry) []
   simpa using this
 
 /-- **every method of the method set exactly once, in order** -/
